@@ -765,3 +765,26 @@ M("c19-crossing-skipped-when-vertical-open", "C19", "cola/libdialect/planarise.c
   "                if (openV != nullptr) {\n                    // There is also an open vertical segment, so we have an intersection.",
   "                if (openV != nullptr && openH.size() < 1) {\n                    // There is also an open vertical segment, so we have an intersection.",
   mention=["CROSSINGS-EXACT"])
+
+# ---------------------------------------------------------------- C15 round d
+M("c15-connref-routes-before-registering", "C15", "cola/libavoid/connector.cpp",
+  "    m_reroute_flag_ptr = m_router->m_conn_reroute_flags.addConn(this);\n\n    // Set endpoint values.\n    setEndpoints(src, dst);\n}",
+  "    // Set endpoint values.\n    setEndpoints(src, dst);\n\n    m_reroute_flag_ptr = m_router->m_conn_reroute_flags.addConn(this);\n}", mention=["CTOR-USE-BEFORE-SET", "m_reroute_flag_ptr"])
+M("c15-connref-start-vert-uninit", "C15", "cola/libavoid/connector.cpp",
+  "      m_dst_vert(nullptr),\n      m_start_vert(nullptr),\n      m_callback_func(nullptr),\n      m_connector(nullptr),\n      m_src_connend(nullptr),\n      m_dst_connend(nullptr)\n{\n    COLA_ASSERT(m_router != nullptr);\n    m_id = m_router->assignId(id);\n    m_route.clear();\n\n    // Register",
+  "      m_dst_vert(nullptr),\n      m_callback_func(nullptr),\n      m_connector(nullptr),\n      m_src_connend(nullptr),\n      m_dst_connend(nullptr)\n{\n    COLA_ASSERT(m_router != nullptr);\n    m_id = m_router->assignId(id);\n    m_route.clear();\n\n    // Register",
+  mention=["INIT", "m_start_vert"])
+M("c15-pin-keys-changed-in-set", "C15", "cola/libavoid/shape.cpp",
+  "    m_connection_pins.clear();\n    for (std::vector<ShapeConnectionPin *>::iterator curr = pins.begin();", "    for (std::vector<ShapeConnectionPin *>::iterator curr = pins.begin();",
+  mention=["SET-KEYS-FROZEN"])
+M("c15-setseparation-writes-old-constraint", "C15", "cola/libcola/compound_constraints.cpp",
+  "    this->gap = gap;\n    vpscConstraint = nullptr;", "    this->gap = gap;\n    if (vpscConstraint != nullptr) vpscConstraint->gap = gap;", mention=["STALE-SOLVER-POINTER"])
+M("c15-checkpoint-vertex-freed-while-listed", "C15", "cola/libavoid/connector.cpp",
+  "        m_checkpoint_vertices[i]->removeFromGraph(true);\n        m_router->vertices.removeVertex(m_checkpoint_vertices[i]);\n        delete m_checkpoint_vertices[i];\n    }\n    m_checkpoint_vertices.clear();\n\n    for (size_t i = 0; i < m_checkpoints.size(); ++i)",
+  "        m_checkpoint_vertices[i]->removeFromGraph(true);\n        delete m_checkpoint_vertices[i];\n    }\n    m_checkpoint_vertices.clear();\n\n    for (size_t i = 0; i < m_checkpoints.size(); ++i)",
+  mention=["VERTEX-UNLISTED-BEFORE-DELETE"])
+M("c15-neutral-pin-action-order-comment", "C15", "cola/libavoid/actioninfo.cpp",
+  "        return objPtr < rhs.objPtr;", "        const void *l = objPtr, *r = rhs.objPtr;\n        return l < r;", expect="silent")
+M("c15-split-derefs-null-connend", "C15", "cola/libavoid/connector.cpp",
+  "        ConnEnd newConnDst = (m_dst_connend) ? *m_dst_connend :\n                ConnEnd(m_dst_vert->point, m_dst_vert->visDirections);",
+  "        ConnEnd newConnDst = *m_dst_connend;", mention=["NULLABLE-CONNEND", "splitAtSegment"])
